@@ -20,7 +20,7 @@ CLAIMS = {
             "offsets, metadata states, file length, growth failure. Slot bytes abstracted to decoded fields by a cfg(kani) hook (codec itself: C17). "
             "Reopen (Regions::fill/Layout::from) is NOT decided (only the slot codec round trip, C17). Histories = induction over the step lemma; "
             "the invariant (DESIGN 5 C02) is re-established by every step harness.",
-            "inductive step harnesses over a ghost-event data file", "5 C01"),
+            "inductive step harnesses over a ghost-event data file", "4 (C01 row), 5"),
     "C02": ("model_checking",
             "Level 1: every Layout operation (len, is_last_anything, best-fit search, hole split, remove_region, promote_pending_holes, reserve/move) "
             "is checked against its contract on arbitrary INV layouts of enumerated shapes with symbolic extent sizes, with a pointwise oracle "
@@ -28,7 +28,7 @@ CLAIMS = {
             "Database re-establish INV pointwise and obey best-fit reuse.",
             "Bounds: shapes of 2-5 extents, sizes 1..3|4|8 pages, model ordered maps of capacity 4 (std BTreeMap/SmallVec replaced by a sorted-array model), "
             "Layout::from / reopen not decided.",
-            "per-operation contract harnesses, pointwise layout oracle", "5 C02"),
+            "per-operation contract harnesses, pointwise layout oracle", "4 (C02 row), 5"),
     "C03": ("model_checking",
             "The real ReadWriteRawVec<usize,u32,BytesStrategy> is built directly in an arbitrary valid overlay state over a tiny real data file "
             "(rawdb in contract mode) and one step of each operation is compared pointwise with the reference list-of-optional-values model computed "
@@ -37,7 +37,7 @@ CLAIMS = {
             "Bounds: <=3 stored + 2 pushed u32, <=2 deleted, <=2 updated slots, 48-byte file. Only the raw Bytes format with u32; compressed formats, "
             "ZeroCopy, EagerVec wrappers over real formats, reset, re-import and the holes region (needs the allocator) are outside; the file-IO scan "
             "back-end is cut.",
-            "contract-mode inductive step harnesses vs reference model", "5 C03"),
+            "contract-mode inductive step harnesses vs reference model", "4 (C03 row), 5"),
     "C05": ("model_checking",
             "Crash safety is decided on the ghost event log of the real code: Database::flush orders fdatasync(data) strictly before fdatasync(regions), "
             "marks clean only after both, promotes freed extents only after both and never on failure (thorough, 11 min); write_with copies before it "
@@ -45,62 +45,62 @@ CLAIMS = {
             "extent freed since the last flush is never reused or grown over (is_last_anything / len / best fit ignore pending holes) - quick tier.",
             "The durable-image reconstruction with per-page subsets (DESIGN 5 C05) is NOT built: the claim is the ordering + no-touch lemmas it rests on. "
             "4 KiB slot writes atomic; torn pages, msync semantics outside.",
-            "event-order assertions over a ghost log + Layout contracts", "5 C05"),
+            "event-order assertions over a ghost log + Layout contracts", "4 (C05 row), 5"),
     "C06": ("model_checking",
             "EagerVec's generic compute code runs unchanged over a storage model (the reference vector as a StoredVec) and mock sources; each method is "
             "checked in the inductive one-call form: arbitrary output state with a correct prefix and a stale tail, one call with max_from inside the "
             "correct prefix must leave exactly the from-scratch result (covers first computation, append, truncation+regrowth, redundant calls).",
             "Bounds: source length <= 3, window 1..4, u32->u64; methods: compute_transform, compute_max, compute_cumulative (quick), compute_sum (thorough). "
             "The other ~35 compute_* methods, batch splitting (MAX_CACHE_SIZE at its real value => single batch) and real storage formats under the column are outside.",
-            "inductive one-call harnesses over a storage model", "5 C06"),
+            "inductive one-call harnesses over a storage model", "4 (C06 row), 5"),
     "C08": ("model_checking",
             "Index-addressed and range reads of the read-write raw vector (collect_one_at, get_any_or_read_at, fold/try_fold over the mmap source, the "
             "pushed tail and the overlay-merging fold_dirty) are compared with the reference contents for symbolic ranges incl. reversed / out of bounds / usize::MAX; "
             "any reachable panic is a failure. The generic default methods over mocks are exercised by the C15 harnesses.",
             "Bounds as C03. Outside: Cursor/read_sorted on vectors with deleted slots (known panic, DESIGN 7-3, not yet a registered harness), compressed formats, "
             "CachedVec, read-only clones, file-IO back-end.",
-            "contract-mode read harnesses vs reference model", "5 C08"),
+            "contract-mode read harnesses vs reference model", "4 (C08 row), 5"),
     "C09": ("model_checking",
             "Narrow: only the cached-wrapper reader is decided. CachedVec::materialize runs against a source whose published length grows exactly "
             "between the reader's length snapshot and its cache store (the budget hook plays the writer): the snapshot is tagged with the length it was "
             "collected for, so no reader ever observes a length whose elements are not readable.",
             "NOT decided: the writer side (raw/compressed write(): data before region length before published length), point readers, read-only clones, "
             "blocking; memory-ordering strength of SharedLen cannot be checked by Kani (sequentially consistent model).",
-            "interleaving at one hook point, concrete lengths", "5 C09"),
+            "interleaving at one hook point, concrete lengths", "4 (C09 row), 5"),
     "C10": ("model_checking",
             "Only the allocator half is decided: the Layout contracts that isolation across the lock-release windows of write_with rests on "
             "(reservations count in len() and is_last_anything, pending holes are never reused before a flush, promotion never merges across a live region).",
             "The two-thread interference harnesses and the reader-lifetime clause (known defect DESIGN 7-2) are NOT built.",
-            "Layout contract harnesses", "5 C10"),
+            "Layout contract harnesses", "4 (C10 row), 5"),
     "C11": ("model_checking",
             "Deadlock freedom is reduced to per-operation obligations checked by the solver on the lock tap of the real code: every lock request happens "
             "while only locks of strictly smaller class in the documented order are held, no held lock is requested again (writer preference), nothing is "
             "held at return. Quick: Region::truncate, Region::rename; thorough: Database::flush, Database::compact.",
             "Trusted: the lock-hierarchy theorem. Operations not covered: write_with growth paths, remove, create, readers, all vecdb locks (pages, header) - "
             "the pages<->mmap cycle of DESIGN 7-6 is therefore not detected.",
-            "lock-order obligations over a lock tap", "5 C11"),
+            "lock-order obligations over a lock tap", "4 (C11 row), 5"),
     "C12": ("model_checking",
             "compact() = flush + punch_holes on a real Database: every punched range is page aligned, inside a region's unused reserve tail or a promoted hole, "
             "never below ceil_page(len) of a live region, no length change (KEEP_SIZE asserted at the libc model) - thorough (heavy). Quick tier: the Layout "
             "contracts that keep a live byte out of every promoted hole.",
             "Writer races inside punch_holes and crash inside compact are not decided.",
-            "event assertions over the ghost log + Layout contracts", "5 C12"),
+            "event assertions over the ghost log + Layout contracts", "4 (C12 row), 5"),
     "C13": ("model_checking",
             "Every refusing path that is reachable in the step harnesses is asserted to leave the observable state unchanged: truncate beyond the length, "
             "rename onto an existing name, update beyond the length (raw vec), malformed change record (parser returns before any mutation), and in the thorough "
             "tier write beyond the end / growth failure and removal of a still-referenced region.",
             "import version/format mismatch (C14), checked_push, rollback without record are not decided.",
-            "refusal paths of the step harnesses", "5 C13"),
+            "refusal paths of the step harnesses", "4 (C13 row), 5"),
     "C15": ("model_checking",
             "LazyVecFrom1/2/3 over mock sources with symbolic contents and unequal lengths: every range/point/sorted read equals the defining formula and the "
             "length equals the governing length; reachable panics are failures.",
             "Bounds: sources <= 3 elements; LazyDeltaVec and LazyAggVec are NOT covered yet.",
-            "formula-equality harnesses over mock sources", "5 C15"),
+            "formula-equality harnesses over mock sources", "4 (C15 row), 5"),
     "C17": ("model_checking",
             "Every on-disk decoder is symbolically executed on arbitrary bytes (RegionMetadata slot: all 4096 bytes symbolic) and every encoder/decoder pair on "
             "arbitrary valid values; the solver shows round-trip identity and absence of panics/overflow/out-of-bounds (CBMC pointer checks on).",
             "Bounds: region id <= 4 bytes or > 1024, change records <= 56 bytes, arrays N in {1,3,33,65}. Outside: serde, derive macro output, Regions::fill.",
-            "codec round-trip / arbitrary-bytes harnesses", "5 C17"),
+            "codec round-trip / arbitrary-bytes harnesses", "4 (C17 row), 5"),
     "C14": ("model_checking",
             "Narrow: the raw Bytes format, one region, stored length concrete per harness (empty, shorter than a header, header only, misaligned payload, "
             "two elements) with stored header version / vector version / format byte and the requested version symbolic. Plain import: accepts exactly an empty "
@@ -109,7 +109,7 @@ CLAIMS = {
             "forced entry point adds the layer version twice, so a vector stored through import() is discarded by forced_import() with identical arguments.",
             "NOT decided: compressed formats and their page-index region, the holes region, name resolution and region creation/removal (stubbed: the allocator is "
             "decided by C01/C02), lock and I/O errors during import, EagerVec/stored-vec wrappers' additional version layers.",
-            "contract-mode import harnesses, one per stored length", "5 C14"),
+            "contract-mode import harnesses, one per stored length", "4 (C14 row), 5"),
     "C18": ("model_checking",
             "Narrow: only the part of the property that is code in open_with_min_len is decided. On a file-system model with symbolic file length, "
             "symbolic min_len and a symbolic 'locked by another holder' flag per file, the solver shows over the ghost event log of the real code that "
@@ -118,20 +118,21 @@ CLAIMS = {
             "NOT decided: that the kernel's advisory lock really excludes a second open file description (other thread / other process), release of the lock "
             "when the last handle, region-derived reference or reader goes away, and that a later open sees the flushed data (Regions::fill is stubbed; "
             "slot decoding is C17). open_read_only_file and clones sharing the locked descriptor are not examined.",
-            "event-order assertions over the ghost log of one open call", "5 C18"),
+            "event-order assertions over the ghost log of one open call", "4 (C18 row), 5"),
     "C19": ("model_checking",
             "validate_computed_version_or_reset + compute_transform over the storage model with symbolic recorded vs presented versions: changed => reset, "
             "re-evaluation from index 0, new version recorded, marked for write-back and persisted by the next write; unchanged => nothing below "
             "min(max_from, len) re-evaluated or altered.",
             "One compute family (transform); persistence through the real header write is modelled by the storage model's write().",
-            "inductive one-call harnesses over a storage model", "5 C19"),
+            "inductive one-call harnesses over a storage model", "4 (C19 row), 5"),
     "C20": ("model_checking",
             "Reads in the post-rollback state (logical length above the bytes on disk) with CBMC pointer checks on over a 48-byte file: the read-write vector "
             "serves such indices from its overlay; the read-only clone does not (known finding F04).",
-            "Raw Bytes format, point reads only; compressed readers and range reads in the expanded state outside. For the compressed formats only the lemma that "
+            "Raw Bytes format, point reads only; compressed readers and range reads in the expanded state outside. The state invariant the read harnesses start from "
+            "(no index both deleted and updated, overlay keys below the logical length) is shown to be preserved by every editing step (c03_raw_edit_step). For the compressed formats only the lemma that "
             "keeps the persisted page table from describing pages the data region no longer holds is decided (Pages::truncate/checked_push/flush leave the "
             "page-index region byte-equal to the in-memory index and exactly 16 * pages long, concrete shapes with 0-2 pages).",
-            "contract-mode harnesses with pointer checks", "5 C20"),
+            "contract-mode harnesses with pointer checks", "4 (C20 row), 5"),
 }
 
 NOT_APPLICABLE = {
@@ -182,8 +183,10 @@ def main():
         }],
         "checks": checks,
         "not_applicable": na,
-        "notes": "All checks: exit 0 holds / exit 1 VIOLATION (replayed natively) / exit 2 machinery problem "
-                 "(inconclusive, never a verdict). Known findings: /verif/known-findings.json.",
+        "notes": "All checks: exit 0 holds / exit 1 VIOLATION (counterexample replayed natively by Kani concrete playback; where the trace generation of a "
+                 "6 M+ variable instance exceeds its budget the solver log is the artifact and the evidence says NOT natively replayed) / exit 2 machinery problem "
+                 "(inconclusive, never a verdict). Known findings: /verif/known-findings.json. Tiers: quick < thorough; harnesses that do not complete on a 62 GB box "
+                 "are kept in an extended tier (bin/check <ID> --tier extended) that no registered command uses.",
     }
     hooks_file = os.path.join(verif, "hooks.json")
     if os.path.exists(hooks_file):
